@@ -56,6 +56,9 @@ def main():
                         r = np.array(metrics.get_crowding_function(job["label"]).do(Fc, n_remove=job["n_remove"]), dtype=float)
                     same = bool(np.array_equal(Fc.view(np.uint64), F.view(np.uint64)))
                     res = ("ok", r, same)
+                elif kind == "trace":
+                    import comp_runs
+                    res = ("ok", comp_runs.trace_asktell(job["case"]))
                 elif kind == "surv":
                     import comp_surv
                     rec = comp_surv.run(job["case"])
